@@ -629,24 +629,44 @@ def r07_6(ctx):
                 # accessor of a local buffer: the buffer must have been filled by io::copy from take(N)
                 buf = trace(b, src["args"][0])
                 bl = buf.origin[2]["dest"]["l"] if buf.origin and buf.origin[0] == "call" else (buf.origin[1] if buf.origin and buf.origin[0] == "multi" else None)
-                for cb2, ct in b.calls():
-                    cf = fn_of(ct) or {}
-                    if cf.get("def") == "std::io::copy" and b.dominates(cb2, bb):
-                        w = trace(b, ct["args"][1])
-                        wl = w.origin[2]["dest"]["l"] if w.origin and w.origin[0] == "call" else None
-                        r = trace(b, ct["args"][0])
-                        if wl == bl and r.origin and r.origin[0] == "call" and (fn_of(r.origin[2]) or {}).get("def") == "std::io::Read::take":
-                            lv = trace(b, r.origin[2]["args"][1])
-                            v = lv.origin[1].get("v") if lv.origin and lv.origin[0] == "const" else None
-                            import r_bin
-
-                            sws = r_bin.result_switches(b, ct["dest"]["l"])
-                            after_ok = any(oks and all(b.dominates(o, bb) for o in oks[:1]) for _, _, oks in sws)
-                            ok = isinstance(v, int) and v >= need and after_ok
-                            det = f"buffer filled by io::copy(reader.take({v}), ..) (loops until {v} bytes or EOF)"
+                got = copy_fill(b, bl, bb)
+                if got is None and buf.origin and buf.origin[0] == "call":
+                    # the buffer is produced by a same-crate helper (`let prefix = read_prefix(&mut reader)?`):
+                    # the helper must fill the buffer it returns the same way, before returning it
+                    hf = fn_of(buf.origin[2]) or {}
+                    hb = lib.by_id.get(hf.get("resolved") or hf.get("def"))
+                    if hb is not None and hf.get("local"):
+                        for dbb, idx, kind, payload in hb.whole_defs(0):
+                            if kind != "assign" or payload["rv"]["k"] != "aggregate" or payload["rv"].get("variant") not in ("Ok", "Some", None) or not payload["rv"]["ops"]:
+                                continue
+                            rt = trace(hb, payload["rv"]["ops"][0])
+                            rl = rt.origin[2]["dest"]["l"] if rt.origin and rt.origin[0] == "call" else None
+                            if rl is not None and all(s_[0] == "use" for s_ in rt.steps):
+                                got = copy_fill(hb, rl, dbb) or got
+                if got is not None:
+                    ok, det = got
             else:
                 det = f"detector input comes from {sf.get('def')}: a single read/fill_buf may return fewer than {need} bytes of a longer stream"
         return [(ok, det, b, bb)]
+
+    def copy_fill(b, bl, bb):
+        """(ok, detail) when local buffer `bl` of body b is filled, before block bb, by a checked
+        io::copy(reader.take(N), &mut bl); None when no such copy is found."""
+        import r_bin
+
+        for cb2, ct in b.calls():
+            cf = fn_of(ct) or {}
+            if cf.get("def") == "std::io::copy" and b.dominates(cb2, bb):
+                w = trace(b, ct["args"][1])
+                wl = w.origin[2]["dest"]["l"] if w.origin and w.origin[0] == "call" else None
+                r = trace(b, ct["args"][0])
+                if wl is not None and wl == bl and r.origin and r.origin[0] == "call" and (fn_of(r.origin[2]) or {}).get("def") == "std::io::Read::take":
+                    lv = trace(b, r.origin[2]["args"][1])
+                    v = lv.origin[1].get("v") if lv.origin and lv.origin[0] == "const" else None
+                    sws = r_bin.result_switches(b, ct["dest"]["l"])
+                    after_ok = any(oks and all(b.dominates(o, bb) for o in oks[:1]) for _, _, oks in sws)
+                    return (isinstance(v, int) and v >= need and after_ok, f"buffer filled by io::copy(reader.take({v}), ..) (loops until {v} bytes or EOF)")
+        return None
 
     n = 0
     for b in lib.bodies:
